@@ -69,48 +69,3 @@ Theorem C03_arbitrary_transport_error_ends_side :
     terminal_state (st c') = true /\ wclosed c' = true /\ armed c' = false.
 Proof. exact transport_error_ends_side. Qed.
 Print Assumptions C03_arbitrary_transport_error_ends_side.
-
-
-(* "a user approval given at any moment while the request is pending", across prolongation
-   rounds (patient mode, PairPatient.v): while the user has not acted the pending server's timer
-   may expire any number of times - each expiry sends a prolongation request, the client answers,
-   both re-arm - and the approval or cancel comes between any two rounds; no other timer expires
-   before the user has acted.  Every reachable state of every configuration is safe, and every
-   state without successor is a correct outcome (both complete on an open connection when the
-   server trusts, both ended when it does not).  Partial for the same reason as the timely
-   theorem: the approval is restricted to moments at which no hello of the client is under way
-   (approve_quiet) - the finding recorded for C03 - and liveness across an unbounded number of
-   rounds needs the fairness assumption that the user acts eventually. *)
-From Ship Require Import PairPatient.
-Theorem C03_patient_agreement_partial :
-  forall (cfg : pcfg) (s : pair),
-    reach (patient_next cfg) (pair_init cfg) s -> pat_ok cfg s = true.
-Proof. exact pair_patient_ok. Qed.
-Print Assumptions C03_patient_agreement_partial.
-
-(* "Under arbitrary delays and timer expiries the two sides still never disagree for good",
-   on the two-endpoint model (racing mode, PairArb.v): deliveries in either direction, the
-   user's approval or cancel at ANY moment (the moments of the recorded finding included), the
-   deferred goroutines and the expiry of either side's timer at any point relative to all of
-   these - in particular while a frame for the expiring side is in flight.  For every
-   configuration and every reachable state: safety holds; a state in which nothing more can
-   happen is an agreement (both complete on an open connection, or both ended with the
-   transport closed and no timer armed) ... *)
-From Ship Require Import PairArb.
-Theorem C03_racing_agreement_partial :
-  forall (cfg : pcfg) (s : pair),
-    reach (arb_next cfg) (pair_init cfg) s -> arb_ok cfg s = true.
-Proof. exact pair_racing_ok. Qed.
-Print Assumptions C03_racing_agreement_partial.
-
-(* ... and from every reachable state such an agreement can still be reached: no
-   interleaving leads into a region in which the two sides are stuck in disagreement (with a
-   fair scheduler they agree eventually).  Partial: to keep the channels finite a timer expires
-   only when the peer has taken what the expiring side wrote before and at most one frame is in
-   flight towards it (PairArb.expiry_held); unboundedly many expiries against a peer that never
-   reads are covered for a single endpoint only (the two theorems above). *)
-Theorem C03_racing_agreement_stays_reachable_partial :
-  forall (cfg : pcfg) (s : pair),
-    reach (arb_next cfg) (pair_init cfg) s -> can_end pair (arb_next cfg) agreement s.
-Proof. exact pair_racing_can_settle. Qed.
-Print Assumptions C03_racing_agreement_stays_reachable_partial.
